@@ -148,6 +148,15 @@ PAIRS = {
     "class-private-in-and-newtarget": "(function(){ class B { #m(){ return A(1); } static has(o){ return #m in o; } constructor(){ this.t=new.target.name; this.v=this.#m(); } } class D extends B { d=A(2); } return J([new D(),B.has(new D()),B.has(A(3))]); })()",
     "class-symbol-iterator-method": "(function(){ class K { *[Symbol.iterator](){ yield A(1); yield A(2); } } return J([...new K(),Array.from(new K())]); })()",
     "structuredClone-alloc": "J(typeof structuredClone==='function' ? structuredClone({a:A(1),m:new Map([[1,A(2)]]),s:new Set([A(3).s]),d:[mk()]}).a : 'n/a')",
+    # values the engine caches in a suspended or running construct while the program drops the last heap reference
+    "yield-star-next-removed-mid-delegation": "(function(){ var it={i:0,[Symbol.iterator]:function(){ return this; },next:function(){ this.i++; var t=A(this.i); return {done:this.i>3,value:t.w}; }}; function* g(){ yield* it; return 'end'; } var o=g(); var out=[o.next().value]; delete it.next; A(0); var s; while(!(s=o.next()).done) out.push(s.value); out.push(s.value); return J(out); })()",
+    "yield-star-next-replaced-mid-delegation": "(function(){ var n=0; var it={[Symbol.iterator]:function(){ return this; },next:function(){ n++; A(n); return {done:n>3,value:n}; }}; function* g(){ var r=yield* it; yield 'r'+r; } var o=g(); var out=[o.next().value]; it.next=function(){ return {done:true,value:'swapped'}; }; A(0); out.push(o.next().value,o.next().value); return J(out); })()",
+    "for-of-iterator-method-removed": "(function(){ var holder={[Symbol.iterator]:function(){ var i=0; return {next:function(){ i++; A(i); return {done:i>3,value:i}; }}; }}; var out=[]; for (var v of holder) { if (v==1) { delete holder[Symbol.iterator]; A(0); } out.push(v); } return J(out); })()",
+    "getter-deletes-itself": "(function(){ var o={get g(){ delete o.g; var t=A(1); A(2); return t; }}; var r=o.g; return J([r,Object.keys(o)]); })()",
+    "callback-detached-while-running": "(function(){ var h={cb:function(x){ h.cb=null; var t=A(x); A(0); return t; }}; var r=[1,2].map(function(x){ return h.cb ? h.cb(x) : A(-x); }); return J(r); })()",
+    "bound-target-dropped": "(function(){ var o={f:function(a){ return [this.k,A(a)]; },k:A(7)}; var b=o.f.bind(o,3); o.f=null; o=null; A(0); return J(b()); })()",
+    "generator-owner-dropped": "(function(){ var holder={mk:function*(){ var t=A(1); yield t; yield A(2); }}; var it=holder.mk(); holder.mk=null; holder=null; var a=it.next().value; A(0); var b=it.next().value; return J([a,b]); })()",
+    "closure-only-in-promise-reaction": "(async function(){})(), (function(){ var out=[]; (function(){ var big=A(5); Promise.resolve(1).then(function(){ out.push(big); }); })(); A(0); return J(out); })()",
     "update-and-compound-on-getter": "(function(){ var o={_v:A(1),get v(){ return this._v.w; }, set v(x){ this._v=A(x); }}; o.v++; o.v+=2; return J(o._v); })()",
 }
 
